@@ -39,7 +39,7 @@ func u8Line(x []byte) string {
 	tr := bytes.TrimRightFunc(x, unicode.IsSpace)
 	ts := []byte(strings.TrimSpace(string(x)))
 	v := utf8.Valid(x)
-	return "D " + showDec(r, w, len(x) == 0) + "|L " + showDec(lr, lw, len(x) == 0) +
+	return "D " + showDec(r, w, len(x) == 0) + "|DT " + showDec(r, w, len(x) == 0) + "|L " + showDec(lr, lw, len(x) == 0) +
 		"|TL " + common.Hex(tl) + "|TR " + common.Hex(tr) + "|T " + common.Hex(ts) + "|TB " + common.Hex(ts) + "|TF " + common.Hex(ts) +
 		"|V " + strconv.FormatBool(v) + "|VB " + strconv.FormatBool(v)
 }
@@ -87,7 +87,7 @@ func (rn *runner) u8Mismatch(x []byte, model, impl string) {
 	rn.res.Violate(common.Violation{Kind: "correspondence", Oracle: field,
 		Input: map[string]string{"x": common.Hex(x), "x_text": fmt.Sprintf("%q", x), "request": "u8 " + common.Hex(x)},
 		Model: model, Impl: impl, Key: "u8:" + common.Hex(x),
-		Detail: "the rune-level / byte-level Gallina functions (D DecodeRune, L DecodeLastRune, TL/TR/T TrimLeftFunc/TrimRightFunc/TrimSpace over runes, TB trim_space, TF TrimFunc as coded in Go, V rune-by-rune validity, VB utf8_valid) and the Go standard library differ"})
+		Detail: "the rune-level / byte-level Gallina functions (D DecodeRune, DT DecodeRune with the library's tables, L DecodeLastRune, TL/TR/T TrimLeftFunc/TrimRightFunc/TrimSpace over runes, TB trim_space, TF TrimFunc as coded in Go, V rune-by-rune validity, VB utf8_valid) and the Go standard library differ"})
 }
 
 func (rn *runner) u8One(x []byte) {
